@@ -1180,8 +1180,8 @@ def judge(prop, r, drop_log=False):
     if M_AMBIG in flags:
         return "skip-ambig", ""
     if M_UAF in flags:
-        # the model's defensive "actor cell not in the table / already freed" branches: unreachable from the DSL
-        # (hypothesis of C02_fifo_lifecycle_partial); seeing one is a failure of the model, not a skipped case
+        # the model's defensive "actor cell not in the table / already freed" branches: the "not in the table" ones
+        # are proved unreachable (Nest.v + C02Proofs.v); seeing any of them is a failure of the model, not a skip
         return "crash", "model flagged M_UAF (access to an actor cell that is gone)"
     if real["status"] != "done":
         return "crash", "real status %s: %s" % (real["status"], [l for l in real["lines"] if l.startswith("panic")][:1])
@@ -1323,7 +1323,7 @@ KNOWN_CLASS = {"F4": (M_DRAINLEFT, "F4_witness.cases"), "F5": (M_PREPHELD, "F5_w
 
 # theorems pinned per property (coq/Props/<prop>.v)
 PINS = {
-    "C01": ["C01_exactly_once_fifo", "F4_refuted"], "C02": ["C02_fifo_lifecycle_partial", "C02_order_gating_partial"], "C03": ["C03_once_partial"],
+    "C01": ["C01_exactly_once_fifo", "F4_refuted"], "C02": ["C02_fifo_lifecycle", "C02_order_gating_partial"], "C03": ["C03_once_partial"],
     "C04": ["C04_owner_count_partial"], "C05": ["C05_ret_once_partial"], "C06": ["C06_quiescence_lazy_idle", "C06_plain_any_deferrer"],
     "C15": ["C15_time"], "C16": ["C16_heap_partial"], "C20": ["C20_open_close_filter", "C20_filter_table"],
 }
@@ -1339,8 +1339,8 @@ CLAIM = {
     "C15": dict(partial=False, proved="C15_time: forall d p fuel t, exec d fuel p = Done t -> C15_ok t = true", missing=""),
     "C06": dict(partial=False, proved="C06_quiescence_lazy_idle: forall p fuel t, exec DGlobal fuel p = Done t -> C06_ok t = true (both conjuncts: plain closures and actor calls; global / thread-local deferrer); C06_plain_any_deferrer: the plain-closure conjunct for either deferrer kind",
                 missing=""),
-    "C02": dict(partial=True, proved="C02_fifo_lifecycle_partial: forall p fuel t, exec DGlobal fuel p = Done t -> (forall a, ~In (EModel M_UAF a) t) -> C02_ok t = true (per-actor FIFO of calls across Prep->Ready, lifecycle gating, discards justified by termination / teardown; global / thread-local deferrer); C02_order_gating_partial: one-item facts",
-                missing="the hypothesis that the model never takes an 'actor cell not in the table' branch (EModel M_UAF): unreachable from the DSL and never seen in a model trace (every Layer R check treats a model trace with this event as a failure), not yet proved for all programs"),
+    "C02": dict(partial=False, proved="C02_fifo_lifecycle: forall p fuel t, exec DGlobal fuel p = Done t -> C02_ok t = true (per-actor FIFO of calls across Prep->Ready, lifecycle gating, discards justified by termination / teardown; global / thread-local deferrer); C02_order_gating_partial: one-item facts",
+                missing=""),
     "C03": dict(partial=True, proved="C03_once_partial: termination makes a Zombie and takes the notifier once; Close+Notify pushed together; stop/fail first-writer-wins",
                 missing="forall-programs statement of C03_ok: validated on traces only"),
     "C04": dict(partial=True, proved="C04_owner_count_partial: translated strong count is an exact counter below saturation; last owner drop queues terminate(Dropped) at the end of the main queue",
